@@ -394,6 +394,18 @@ impl Gen {
         if self.p.name != "c11" && self.p.w[17] > 0 && sim.obs.hub.as_ref().map(|h| h.params.paused.unwrap_or(false) && h.legacy_wait_entries == 0).unwrap_or(false) && self.rng.chance(1, 3) {
             return self.gen_op_cat(sim, 17);
         }
+        // a young pool holding fewer base units than it has validators: sometimes take a staked
+        // validator out right then (the even share of what has to move is below one unit)
+        if self.p.name == "c12_c13" && sim.cfg.token_world.is_none() {
+            let dels = sim.w.delegations_of(HUB);
+            let total: u128 = dels.iter().map(|d| d.1).sum();
+            if let Some(reg) = sim.obs.registry.as_ref() {
+                let staked: Vec<String> = dels.iter().filter(|d| d.1 > 0 && reg.iter().any(|v| v.address == d.0)).map(|d| d.0.clone()).collect();
+                if total > 0 && reg.len() >= 2 && total < reg.len() as u128 && !staked.is_empty() && self.rng.chance(1, 3) {
+                    return Some(Op::RemoveValidator { sender: OWNER.into(), validator: self.rng.pick(&staked).clone() });
+                }
+            }
+        }
         let cat = self.rng.pick_weighted(&self.p.w);
         self.gen_op_cat(sim, cat)
     }
